@@ -250,6 +250,26 @@ impl Check for ListLaws {
             want(&sess, "chunk", cls, "chunk(l, n)", &MV::List(chunks))?;
             want(&sess, "flatten-chunk", cls, "flatten(chunk(l, n))", &MV::List(l.clone()))?;
         }
+        // chunk sizes that are not whole: refused, or the chunks still rebuild the list
+        for size in ["0.5", "0.999", "1 / 1000000000", "1.5", "2.25", "0 / 0", "0 - 0.5", "n + 0.5", "0 - 1", "1 / 0"] {
+            match sess.probe(&format!("chunk(l, {})", size)) {
+                Err(_) => {}
+                Ok(MV::List(chs)) => {
+                    let mut rebuilt = Vec::new();
+                    let mut all_lists = true;
+                    for ch in &chs {
+                        match ch {
+                            MV::List(v) if !v.is_empty() || l.is_empty() => rebuilt.extend(v.iter().cloned()),
+                            _ => all_lists = false,
+                        }
+                    }
+                    if !all_lists || !MV::List(rebuilt.clone()).identical(&MV::List(l.clone())) {
+                        fail!(format!("chunk:fractional-size:{}", cls), "chunk({}, {}) = {} does not rebuild the list", MV::List(l.clone()).to_source(false), size, MV::List(chs).to_source(false));
+                    }
+                }
+                Ok(other) => fail!(format!("chunk:fractional-size:{}", cls), "chunk(l, {}) = {:?}", size, other),
+            }
+        }
         // flatten: one level
         let mut flat = Vec::new();
         for x in l {
@@ -509,6 +529,8 @@ pub fn string_strategy() -> BoxedStrategy<String> {
     prop_oneof![
         3 => crate::gen_::any_string(),
         2 => prop::collection::vec(prop::sample::select(vec!['a', 'b', ',', ' ', 'é', '日', '😀', '\u{301}', 'ß', '-']), 0..16).prop_map(|v| v.into_iter().collect()),
+        // text with line structure: LF, CRLF, lone CR, tabs, trailing and doubled line breaks
+        2 => prop::collection::vec(prop::sample::select(vec!["a", "bc", "\n", "\r\n", "\r", "\t", " ", "é", "\n\n", ","]), 0..12).prop_map(|v| v.concat()),
     ]
     .boxed()
 }
@@ -519,7 +541,7 @@ pub fn run(ctx: &mut Ctx) {
     ctx.run_random(&ListLaws, lists, ncases);
     let small = (list_strategy(7), list_strategy(4), 0u8..5, 0u8..8, 0u8..8, -8i8..8).prop_map(|(l, m, n, a, b, i)| ListCase { l, m, n, a, b, i });
     ctx.run_random(&ListLaws, small, ncases);
-    let strs = (string_strategy(), prop::sample::select(vec![",", " ", "a", "ab", "é", "😀", "--", "\u{301}"]), 0u8..18, 0u8..18, -18i8..18)
+    let strs = (string_strategy(), prop::sample::select(vec![",", " ", "a", "ab", "é", "😀", "--", "\u{301}", "\n", "\r\n", "\r", "\t", "\n\n"]), 0u8..18, 0u8..18, -18i8..18)
         .prop_map(|(s, d, a, b, i)| StrCase { s, d: d.to_string(), a, b, i });
     ctx.run_random(&StrLaws, strs, ncases * 2);
     let recs = (
